@@ -163,6 +163,29 @@ theorem c08_content_length (p p' : P) (v : Bytes) (rest : List Bytes) (h : endOf
       ∀ w ∈ rest, trimRightSpaces w = trimRightSpaces v :=
   cl_accepted p p' v rest h hte hcl
 
+/-- C08: Content-Length garbage is rejected also when `Transfer-Encoding: chunked` overrides the length. -/
+theorem c08_content_length_any (p p' : P) (v : Bytes) (rest : List Bytes) (h : endOfHeaders p = .ok p')
+    (hcl : p.cl = v :: rest) :
+    clShape (trimRightSpaces v) = true ∧ ∀ w ∈ rest, trimRightSpaces w = trimRightSpaces v :=
+  cl_accepted_any p p' v rest h hcl
+
+/-- C08: the chunk-size line is `HEXDIG+ (SP|HTAB)* [";" extension] CR`: any other byte at the place concerned is
+    `ErrInvalidChunkSize` (no "hex prefix" is guessed: `1g`, `1 zz`, `12 3` are errors). -/
+theorem c08_chunk_line_grammar (g : Cfg) (p : P) (tok : Bytes) (c : UInt8) (hs : p.st = .chunkSize) :
+    (c = LF → byteStep g p tok c = .err E.invalidChunkSize.code []) ∧
+    (p.chunkSize < 0 → isHex c = false → c ≠ SP → c ≠ 9 → c ≠ 59 → c ≠ CR →
+      byteStep g p tok c = .err E.invalidChunkSize.code []) ∧
+    (¬ p.chunkSize < 0 → p.chunkExt = false → c ≠ SP → c ≠ 9 → c ≠ 59 → c ≠ CR →
+      byteStep g p tok c = .err E.invalidChunkSize.code []) :=
+  chunk_line_grammar g p tok c hs
+
+/-- C08: a bare LF is an error in the status line, the header section, the chunk-size line and the trailer section. -/
+theorem c08_bare_lf_rejected (g : Cfg) (p : P) (tok : Bytes)
+    (hs : p.st = .statusBefore ∨ p.st = .status ∨ p.st = .chunkSize ∨ p.st = .trValueBefore ∨ p.st = .trValue ∨
+          p.st = .trKeyBefore ∨ p.st = .statusCodeBefore ∨ p.st = .headerKeyBefore ∨ p.st = .headerKey ∨
+          p.st = .headerValueBefore ∨ p.st = .headerValue) :
+    ∃ e, byteStep g p tok LF = .err e [] := bare_lf_rejected g p tok hs
+
 /-- C08: an accepted chunk size is `HEXDIG+` with a value below 2^62 ≤ MaxInt. -/
 theorem c08_chunk_size (s : Bytes) (n : Nat) (h : parseHexSize s = some n) :
     s ≠ [] ∧ s.all isHex = true ∧ n < 2 ^ 62 := chunk_accepted s n h
